@@ -1,6 +1,346 @@
-(* C04 — stub: model not yet built (the property is listed under not_applicable until it is). *)
-From Coq Require Import List ZArith Bool.
+(* C04 -- concurrent logging delivers every entry exactly once as an intact line.
+
+   Model (no proofs in this file):
+
+   1. A generic interleaving machine: threads are lists of atomic instructions
+      [ILock l | IUnlock l | IAct l a], a schedule is a [list nat] of thread ids,
+      a blocked thread's turn is a no-op.  Actions act on the state of the
+      object guarded by lock [l]; nothing in the machine makes a critical
+      section atomic -- that is what the theorems prove.
+
+   2. zap's sinks as actions on a sink object (zapcore/write_syncer.go,
+      zapcore/buffered_write_syncer.go + bufio.Writer, writer.go):
+        AApp u c      the underlying sink number u receives the chunk c of a
+                      Write call (an underlying write is deliberately NOT atomic:
+                      a line arrives in arbitrary chunks);
+        ABWrite sz p  body of BufferedWriteSyncer.Write (pre-flush rule, then
+                      bufio.Writer.Write with its fill-flush-continue loop);
+        ABFlush       body of Sync (bufio Flush; ws.Sync has no stream effect).
+
+   3. zap's logging path compiled to instructions (zapcore/core.go ioCore.Write,
+      zapcore/tee.go multiCore.Write, zapcore/entry.go CheckedEntry.Write):
+      a log call visits the branches of the tee in order; at each branch the
+      entry is encoded privately (zapcore/json_encoder.go EncodeEntry returns an
+      owned buffer -- here: the line is a value of the entry) and handed to the
+      branch's sink in ONE Write call
+         Lock(ws)/CombineWriteSyncers(ws1..wsk):  Lock; chunks to ws1; ..; chunks to wsk; Unlock
+         BufferedWriteSyncer:                     Lock mu; ABWrite; Unlock mu
+      followed by the branch's Sync when the level is above Error.  Logger.Sync
+      and the flush ticks are further operations any thread may issue.
+
+   4. The specification, independent of the machine: [MergeOf] (every thread's
+      lines appear exactly, in its order, nothing else) and the executable
+      checker [check_stream] run by the driver on the bytes the real sinks
+      received. *)
+From Coq Require Import List ZArith Bool Arith Lia.
+From Coq.Strings Require Import Byte.
 Import ListNotations.
 From Zap Require Import Base.Wire.
-Definition model (i : sx) : sx := SL [].
-Definition spec (i o : sx) : bool := false.
+
+Definition is_nil {A} (l : list A) : bool := match l with [] => true | _ => false end.
+Definition upd {B} (f : nat -> B) (k : nat) (v : B) : nat -> B :=
+  fun x => if Nat.eqb x k then v else f x.
+
+(* ------------------------------------------------------------------ *)
+(* 1. the interleaving machine                                          *)
+(* ------------------------------------------------------------------ *)
+Section Machine.
+  Variable St : Type.                 (* state of one lock-guarded object *)
+  Variable Act : Type.                (* atomic actions on it *)
+  Variable act : Act -> St -> St.
+  Variable Item : Type.               (* one sink call = one critical section *)
+  Variable sec_of : Item -> nat * list Act.   (* its lock/object and its actions *)
+
+  Inductive instr := ILock (l : nat) | IUnlock (l : nat) | IAct (l : nat) (a : Act).
+
+  Record mstate := { conts : nat -> list instr;        (* per thread: rest of its code *)
+                     holder : nat -> option nat;       (* per lock: who holds it *)
+                     obj : nat -> St }.                (* per lock: the guarded object *)
+
+  Definition step (s : mstate) (t : nat) : mstate :=
+    match conts s t with
+    | [] => s
+    | ILock l :: k =>
+        match holder s l with
+        | None => {| conts := upd (conts s) t k; holder := upd (holder s) l (Some t); obj := obj s |}
+        | Some _ => s                                   (* blocked: the turn is lost *)
+        end
+    | IUnlock l :: k => {| conts := upd (conts s) t k; holder := upd (holder s) l None; obj := obj s |}
+    | IAct l a :: k => {| conts := upd (conts s) t k; holder := holder s;
+                          obj := upd (obj s) l (act a (obj s l)) |}
+    end.
+
+  Definition minit (code : nat -> list instr) (o0 : nat -> St) : mstate :=
+    {| conts := code; holder := fun _ => None; obj := o0 |}.
+  Definition run (code : nat -> list instr) (o0 : nat -> St) (sched : list nat) : mstate :=
+    fold_left step sched (minit code o0).
+  Definition complete (s : mstate) : Prop := forall t, conts s t = [].
+
+  (* s.Lock(); body; s.Unlock() *)
+  Definition compile_item (it : Item) : list instr :=
+    ILock (fst (sec_of it)) :: map (IAct (fst (sec_of it))) (snd (sec_of it)) ++ [IUnlock (fst (sec_of it))].
+  Definition flat (its : list Item) : list instr := flat_map compile_item its.
+  (* the same call with the mutex dropped (used only by the _refuted lemmas) *)
+  Definition compile_item_nolock (it : Item) : list instr := map (IAct (fst (sec_of it))) (snd (sec_of it)).
+  Definition flat_nolock (its : list Item) : list instr := flat_map compile_item_nolock its.
+
+  (* serial execution of whole sink calls *)
+  Definition exec_acts (acts : list Act) (x : St) : St := fold_left (fun x a => act a x) acts x.
+  Definition exec_items (its : list Item) (x : St) : St :=
+    fold_left (fun x it => exec_acts (snd (sec_of it)) x) its x.
+  Definition on_lock (l : nat) (its : list Item) : list Item :=
+    filter (fun it => Nat.eqb (fst (sec_of it)) l) its.
+End Machine.
+Arguments ILock {Act}. Arguments IUnlock {Act}. Arguments IAct {Act}.
+Arguments conts {St Act}. Arguments holder {St Act}. Arguments obj {St Act}.
+
+(* ------------------------------------------------------------------ *)
+(* 4a. the merge specification                                          *)
+(* ------------------------------------------------------------------ *)
+(* [lab] labels every element of the result with the thread it came from *)
+Definition owned {B} (t : nat) (lab : list (nat * B)) : list B :=
+  map snd (filter (fun p => Nat.eqb (fst p) t) lab).
+(* sigma is a merge of the per-thread lists ths: each thread's elements occur
+   exactly, in that thread's order, and there is nothing else *)
+Definition MergeOf {B} (ths : nat -> list B) (sigma : list B) : Prop :=
+  exists lab : list (nat * B), map snd lab = sigma /\ forall t, owned t lab = ths t.
+
+(* the byte stream s is the concatenation of such a merge: every line intact,
+   none torn, interleaved, merged, duplicated or lost, per-thread order kept *)
+Definition StreamOk (ths : nat -> list bytes) (s : bytes) : Prop :=
+  exists sigma, MergeOf ths sigma /\ s = concat sigma.
+
+(* ------------------------------------------------------------------ *)
+(* 2. sink objects                                                      *)
+(* ------------------------------------------------------------------ *)
+Record sinkst := { outs : nat -> bytes;   (* byte stream received by underlying sink u *)
+                   bbuf : bytes }.        (* bufio.Writer buffer (BufferedWriteSyncer only) *)
+Inductive sact := AApp (u : nat) (c : bytes) | ABWrite (size : nat) (p : bytes) | ABFlush.
+
+Definition sink0 : sinkst := {| outs := fun _ => []; bbuf := [] |}.
+Definition app_out (x : sinkst) (u : nat) (c : bytes) : sinkst :=
+  {| outs := upd (outs x) u (outs x u ++ c); bbuf := bbuf x |}.
+(* bufio.Writer.Flush over a sink that accepts everything *)
+Definition sflush (x : sinkst) : sinkst :=
+  match bbuf x with
+  | [] => x
+  | _ => {| outs := upd (outs x) 0 (outs x 0 ++ bbuf x); bbuf := [] |}
+  end.
+(* bufio.Writer.Write:  for len(p) > b.Available() { if b.Buffered()==0 { write p
+   directly } else { fill the buffer; Flush }; p = p[n:] }; copy the rest.
+   The loop body runs at most twice (after a fill+flush the buffer is empty). *)
+Fixpoint bwrite (fuel size : nat) (x : sinkst) (p : bytes) : sinkst :=
+  match fuel with
+  | 0 => x
+  | S f =>
+      if size - length (bbuf x) <? length p then
+        match bbuf x with
+        | [] => {| outs := upd (outs x) 0 (outs x 0 ++ p); bbuf := [] |}
+        | _ => let n := size - length (bbuf x) in
+               bwrite f size (sflush {| outs := outs x; bbuf := bbuf x ++ firstn n p |}) (skipn n p)
+        end
+      else {| outs := outs x; bbuf := bbuf x ++ p |}
+  end.
+(* BufferedWriteSyncer.Write under s.mu:
+   if len(bs) > s.writer.Available() && s.writer.Buffered() > 0 { Flush }; s.writer.Write(bs) *)
+Definition bws_write (size : nat) (x : sinkst) (p : bytes) : sinkst :=
+  let x1 := if (size - length (bbuf x) <? length p) && negb (is_nil (bbuf x)) then sflush x else x in
+  bwrite 3 size x1 p.
+(* the same without zap's pre-flush rule (only for the _refuted lemma) *)
+Definition bws_write_noflush (size : nat) (x : sinkst) (p : bytes) : sinkst := bwrite 3 size x p.
+
+Definition sact_run (a : sact) (x : sinkst) : sinkst :=
+  match a with
+  | AApp u c => app_out x u c
+  | ABWrite size p => bws_write size x p
+  | ABFlush => sflush x
+  end.
+
+(* ------------------------------------------------------------------ *)
+(* 3. zap's logging path                                                *)
+(* ------------------------------------------------------------------ *)
+(* the sink of one ioCore (one branch of the tee) *)
+Inductive bkind :=
+| KLocked (k : nat)          (* zapcore.Lock(ws) (k = 1) / zap.CombineWriteSyncers / zap.Open: one mutex around k sinks *)
+| KBuffered (size : nat).    (* &BufferedWriteSyncer{WS: ws, Size: size} *)
+Definition nsinks (kd : bkind) : nat := match kd with KLocked k => k | KBuffered _ => 1 end.
+
+(* one log call: per branch, the chunks in which that branch's line reaches an
+   underlying sink (the line is their concatenation); esync = level above Error *)
+Record entry := { echunks : list (list bytes); esync : bool }.
+Inductive op := OLog (e : entry) | OSync | OTick (j : nat).
+Definition eline (j : nat) (e : entry) : bytes := concat (nth j (echunks e) []).
+
+(* sink calls (critical sections) *)
+Inductive item := IWrite (j : nat) (kd : bkind) (chunks : list bytes) | IFlush (j : nat).
+(* lockedWriteSyncer.Write -> [multiWriteSyncer.Write: for each w { w.Write(p) }] ;
+   BufferedWriteSyncer.Write *)
+Definition write_acts (kd : bkind) (chunks : list bytes) : list sact :=
+  match kd with
+  | KLocked k => flat_map (fun u => map (AApp u) chunks) (seq 0 k)
+  | KBuffered size => [ABWrite size (concat chunks)]
+  end.
+Definition item_sec (it : item) : nat * list sact :=
+  match it with
+  | IWrite j kd chunks => (j, write_acts kd chunks)
+  | IFlush j => (j, [ABFlush])
+  end.
+Definition item_lines (it : item) : list bytes :=
+  match it with IWrite _ _ chunks => [concat chunks] | IFlush _ => [] end.
+
+Definition branches (cfg : list bkind) : list (nat * bkind) := combine (seq 0 (length cfg)) cfg.
+(* CheckedEntry.Write: for each core { ioCore.Write: EncodeEntry; out.Write(buf.Bytes()); buf.Free();
+   if ent.Level > ErrorLevel { c.Sync() } } *)
+Definition log_items (cfg : list bkind) (e : entry) : list item :=
+  flat_map (fun jk => IWrite (fst jk) (snd jk) (nth (fst jk) (echunks e) []) ::
+                      (if esync e then [IFlush (fst jk)] else [])) (branches cfg).
+Definition op_items (cfg : list bkind) (o : op) : list item :=
+  match o with
+  | OLog e => log_items cfg e
+  | OSync => map (fun jk => IFlush (fst jk)) (branches cfg)      (* Logger.Sync -> multiCore.Sync *)
+  | OTick j => [IFlush j]                                        (* flushLoop: <-ticker.C; s.Sync() *)
+  end.
+Definition thread_items (cfg : list bkind) (ops : list op) : list item := flat_map (op_items cfg) ops.
+Definition thread_lines (j : nat) (ops : list op) : list bytes :=
+  flat_map (fun o => match o with OLog e => [eline j e] | _ => [] end) ops.
+
+Definition zinstr := instr sact.
+Definition zstate := mstate sinkst sact.
+Definition zcode (cfg : list bkind) (prog : list (list op)) : nat -> list zinstr :=
+  fun t => flat sact item item_sec (thread_items cfg (nth t prog [])).
+Definition zrun (cfg : list bkind) (prog : list (list op)) (sched : list nat) : zstate :=
+  run sinkst sact sact_run (zcode cfg prog) (fun _ => sink0) sched.
+Definition zcomplete (s : zstate) : Prop := complete sinkst sact s.
+Definition prog_lines (j : nat) (prog : list (list op)) : nat -> list bytes :=
+  fun t => thread_lines j (nth t prog []).
+(* what the underlying sink u of branch j has received once the logger is
+   finally synced (Logger.Sync / BufferedWriteSyncer.Stop by the owner) *)
+Definition final_out (s : zstate) (j u : nat) : bytes := outs (sflush (obj s j)) u.
+
+(* variants of the code that exist only to be refuted *)
+(* (a) the mutex dropped *)
+Definition zcode_nolock (cfg : list bkind) (prog : list (list op)) : nat -> list zinstr :=
+  fun t => flat_nolock sact item item_sec (thread_items cfg (nth t prog [])).
+(* (b) ioCore.Write handing the line to the sink in two Write calls *)
+Definition split_last (chunks : list bytes) : list bytes * list bytes :=
+  (removelast chunks, match chunks with [] => [] | _ => [last chunks []] end).
+Definition log_items_two (cfg : list bkind) (e : entry) : list item :=
+  flat_map (fun jk => let c := nth (fst jk) (echunks e) [] in
+                      [IWrite (fst jk) (snd jk) (fst (split_last c)); IWrite (fst jk) (snd jk) (snd (split_last c))])
+           (branches cfg).
+Definition zcode_two (cfg : list bkind) (prog : list (list op)) : nat -> list zinstr :=
+  fun t => flat sact item item_sec
+             (flat_map (fun o => match o with OLog e => log_items_two cfg e | _ => op_items cfg o end) (nth t prog [])).
+
+(* ------------------------------------------------------------------ *)
+(* 4b. the executable oracle                                            *)
+(* ------------------------------------------------------------------ *)
+Definition nl : byte := x0a.
+(* complete newline-terminated lines of a stream (newline kept) and the unterminated rest *)
+Fixpoint split_nl (cur : bytes) (s : bytes) : list bytes * bytes :=
+  match s with
+  | [] => ([], rev cur)
+  | b :: r => if Byte.eqb b nl
+              then let '(ls, rest) := split_nl [] r in (rev (b :: cur) :: ls, rest)
+              else split_nl (b :: cur) r
+  end.
+(* all ways of taking x from the head of one thread *)
+Fixpoint pops (x : bytes) (ths : list (list bytes)) : list (list (list bytes)) :=
+  match ths with
+  | [] => []
+  | th :: r =>
+      (match th with
+       | y :: tl => if bytes_eqb x y then [tl :: r] else []
+       | [] => []
+       end) ++ map (cons th) (pops x r)
+  end.
+Fixpoint is_merge (sigma : list bytes) (ths : list (list bytes)) {struct sigma} : bool :=
+  match sigma with
+  | [] => forallb is_nil ths
+  | x :: r => existsb (is_merge r) (pops x ths)
+  end.
+Definition check_stream (ths : list (list bytes)) (s : bytes) : bool :=
+  let '(ls, rest) := split_nl [] s in is_nil rest && is_merge ls ths.
+(* a line: newline-terminated, no newline inside *)
+Fixpoint wf_line (l : bytes) : bool :=
+  match l with
+  | [] => false
+  | [b] => Byte.eqb b nl
+  | b :: r => negb (Byte.eqb b nl) && wf_line r
+  end.
+
+(* ------------------------------------------------------------------ *)
+(* wire                                                                 *)
+(* ------------------------------------------------------------------ *)
+(* input = (cfg threads hints)
+     cfg     = (kind ...)            kind = (0 k) | (1 size)
+     threads = ((op ...) ...)        op = (0 sync (line_for_branch_0 ...)) | (1) | (2 j)
+     hints   = ((tid ...) ...)       per branch: the order in which the sink calls of the
+                                     threads were committed in the observed run
+   observation = (branch ...)        branch = ((stream_of_sink_0 ...) aligned)
+   The lines of the input are produced by the harness with a sequential
+   reference logger; [aligned] is the harness probe "every underlying Write call
+   was a whole number of lines (exactly one for a locked sink)". *)
+Definition dec_kind (s : sx) : bkind :=
+  match sx_z (sx_nth s 0) with
+  | 0%Z => KLocked (sx_n (sx_nth s 1))
+  | _ => KBuffered (sx_n (sx_nth s 1))
+  end.
+Definition dec_op (s : sx) : op :=
+  match sx_z (sx_nth s 0) with
+  | 0%Z => OLog {| echunks := map (fun l => [sx_b l]) (sx_l (sx_nth s 2)); esync := sx_bool (sx_nth s 1) |}
+  | 1%Z => OSync
+  | _ => OTick (sx_n (sx_nth s 1))
+  end.
+Definition dec_cfg (i : sx) : list bkind := map dec_kind (sx_l (sx_nth i 0)).
+Definition dec_prog (i : sx) : list (list op) := map (fun t => map dec_op (sx_l t)) (sx_l (sx_nth i 1)).
+Definition dec_hint (i : sx) (j : nat) : list nat := map sx_n (sx_l (sx_nth (sx_nth i 2) j)).
+
+Fixpoint setn {B} (l : list B) (i : nat) (v : B) : list B :=
+  match l, i with
+  | [], _ => []
+  | _ :: r, 0 => v :: r
+  | x :: r, S n => x :: setn r n v
+  end.
+(* follow the hinted commit order; whatever the hint leaves over is appended thread by thread *)
+Fixpoint pick {B} (hint : list nat) (ths : list (list B)) : list B :=
+  match hint with
+  | [] => concat ths
+  | t :: h => match nth t ths [] with
+              | x :: tl => x :: pick h (setn ths t tl)
+              | [] => pick h ths
+              end
+  end.
+Definition write_items_on (cfg : list bkind) (j : nat) (ops : list op) : list item :=
+  filter (fun it => match it with IWrite _ _ _ => true | IFlush _ => false end)
+         (on_lock sact item item_sec j (thread_items cfg ops)).
+(* serial execution of the sink calls of branch j in the hinted order, then the final Sync *)
+Definition serial_branch (cfg : list bkind) (prog : list (list op)) (hint : list nat) (j : nat) : sinkst :=
+  sflush (exec_items sinkst sact sact_run item item_sec
+            (pick hint (map (write_items_on cfg j) prog)) sink0).
+
+Definition model (i : sx) : sx :=
+  let cfg := dec_cfg i in
+  let prog := dec_prog i in
+  SL (map (fun jk =>
+             let x := serial_branch cfg prog (dec_hint i (fst jk)) (fst jk) in
+             SL [SL (map (fun u => SB (outs x u)) (seq 0 (nsinks (snd jk)))); SZ 1])
+          (branches cfg)).
+
+Definition spec (i o : sx) : bool :=
+  let cfg := dec_cfg i in
+  let prog := dec_prog i in
+  Nat.eqb (length (sx_l o)) (length cfg) &&
+  forallb (fun jk =>
+             let ob := sx_nth o (fst jk) in
+             let ths := map (thread_lines (fst jk)) prog in
+             Z.eqb (sx_z (sx_nth ob 1)) 1 &&
+             Nat.eqb (length (sx_l (sx_nth ob 0))) (nsinks (snd jk)) &&
+             forallb (fun st => match st with SB s => check_stream ths s | _ => false end) (sx_l (sx_nth ob 0)))
+          (branches cfg).
+
+(* well-formed case: every submitted line is one newline-terminated line *)
+Definition wf (i : sx) : bool :=
+  let cfg := dec_cfg i in
+  let prog := dec_prog i in
+  forallb (fun jk => forallb (fun ops => forallb wf_line (thread_lines (fst jk) ops)) prog) (branches cfg).
